@@ -102,6 +102,16 @@ CHECKS["C09"] = dict(
          "SQLite keeps): the model accepts both."),
    design="6/C09", technique=TECH)
 
+CHECKS["C11"] = dict(
+   text=("PynencCore.tla with the stop actor: StoppedLeavesNothing / NoStranded exhaustive (2 pollers + workers, stop of one "
+         "runner at any state); RunnerSlots.tla with Stop: StopCompletesModel fails when a parent waits for a child (design-level "
+         "finding). The real ThreadRunner.run() executes workloads (independent, waiting on sub-tasks, retrying) in the "
+         "deterministic world with virtual time; the stop request is injected at every scheduling step of the reference run; "
+         "when run() returns TLC evaluates StoppedLeavesNothing on the recorded execution; a run() that does not return is a "
+         "StopCompletes failure (matched against the known finding only when the surviving thread is a waiting parent)."),
+   note="Thread runner only (the property's quantifier); signals are modelled by calling stop_runner_loop(); backend-call granularity.",
+   design="6/C11", technique=TECH + "; stop injection at every scheduling step of the real runner")
+
 NOT_YET = {}
 
 def main() -> None:
